@@ -225,6 +225,8 @@ BLOCKS = {
     'prog_counter_probe': ('program', 'R', '\\newcounter{qpcount}\\stepcounter{qpcount}D\\arabic{qpcount}.%(n)s\n'),
     'prog_newif': ('program', 'W', '\\ifqpflag T\\else F\\fi%(n)s.\n'),
     'prog_userdata': ('program', 'W', 'Userdata u%(n)s.\n'),
+    'color_define_a': ('pkgtable', 'W', '\\definecolor{accent}{rgb}{1,0,0}\\textcolor{accent}{red%(n)s} \\colorbox{accent}{box}.\n'),
+    'color_define_b': ('pkgtable', 'R', '\\definecolor{accent}{rgb}{0,0,1}\\textcolor{accent}{blue%(n)s} \\colorbox{accent}{box} \\textcolor[gray]{0.5}{g}.\n'),
     'url_dashes': ('pkgtable', 'R', 'See \\url{http://example.org/one--two} u%(n)s.\n\n'),
     'href_dashes': ('pkgtable', 'W', 'See \\href{http://example.org/a--b}{link%(n)s} and \\nolinkurl{http://x.example/c--d}.\n\n'),
     'lang_probe': ('language', 'R', 'Names \\figurename, \\tablename, \\contentsname, \\abstractname, \\today %(n)s.\n'),
@@ -243,7 +245,7 @@ BLOCKS = {
     'newcount_assign': ('switch', 'R', '\\newcount\\fxtotal \\fxtotal=42 T\\the\\fxtotal. \\parskip=2pt plus 1pt Q%(n)s.\n'),
     'dimen_args_unitless': ('switch', 'W', 'A\\hspace{2}B\\vspace{1}C\\parbox{3}{box%(n)s}D\\rule{1}{2pt}E.\n'),
 }
-NEEDS = {'url_dashes': ['url'], 'href_dashes': ['hyperref'], 'prog_coltype_right': ['qpa'], 'prog_coltype_center': ['qpb'], 'prog_charsubs': ['qpc'], 'prog_macro': ['qpd'],
+NEEDS = {'color_define_a': ['color'], 'color_define_b': ['color'], 'url_dashes': ['url'], 'href_dashes': ['hyperref'], 'prog_coltype_right': ['qpa'], 'prog_coltype_center': ['qpb'], 'prog_charsubs': ['qpc'], 'prog_macro': ['qpd'],
          'prog_counter': ['qpe'], 'prog_newif': ['qpf'], 'prog_userdata': ['qpg'],
          'ifthenelse_forms': ['ifthen'], 'xcolor_define': ['xcolor'], 'xcolor_redefine': ['xcolor'], 'xcolor_provide': ['xcolor'], 'xcolor_use': ['xcolor'],
          'amsthm_style': ['amsthm'], 'amsthm_plain': ['amsthm'], 'amsopn_declare': ['amsmath'], 'amsopn_provide': ['amsmath'],
@@ -757,6 +759,18 @@ def enumerate_cases(base_seed, tier):
                 out.append({'property': PID, 'seed': core.h64('C17-pair', fam, w, x, variant),
                             'swarm': {'scrub': False, 'base': 'minimal', 'exec_ref': False, 'hashseed': 1},
                             'ops': [gjob([w]), gjob(bblocks)]})
+    # writer/reader pairs that belong to the same topic are always there (the per-family sample above may miss them)
+    topic_pairs = [('xcolor_define', 'xcolor_use'), ('xcolor_define', 'xcolor_provide'), ('xcolor_redefine', 'xcolor_use'),
+                   ('amsthm_style', 'amsthm_plain'), ('amsopn_declare', 'amsopn_provide'), ('hypersetup', 'href_plain'),
+                   ('natbib_style', 'natbib_cite'), ('index_entries', 'index_print'), ('lstset', 'lstlisting'),
+                   ('floatstyle', 'captionname'), ('color_define_a', 'color_define_b'), ('href_dashes', 'url_dashes'),
+                   ('prog_coltype_right', 'prog_coltype_center'), ('prog_charsubs', 'dots_probe'), ('prog_macro', 'prog_macro_probe'),
+                   ('prog_counter', 'prog_counter_probe')]
+    for w, x in topic_pairs:
+        if w in BLOCKS and x in BLOCKS:
+            out.append({'property': PID, 'seed': core.h64('C17-topic', w, x),
+                        'swarm': {'scrub': False, 'base': 'minimal', 'exec_ref': False, 'hashseed': 1},
+                        'ops': [gjob([w]), gjob(['section_break', x, 'textbf'])]})
     # every construct that can be left open at the end of input (cut 999: the input just ends; 998: \end{document}
     # arrives while it is open), followed by the readers of its family and a few general ones
     for o in OPENERS:
